@@ -585,6 +585,27 @@ pub fn gen_case(rng: &mut Rng, tier: Tier, for_sweep: bool) -> Case13 {
             ref_kind = "external-long-name".into();
         }
     }
+    if !for_sweep && rng.chance(1, 5) {
+        // comment form is its own dimension: the last line-comment reference becomes a block comment
+        let pat = "\n//# sourceMappingURL=";
+        if let Some(at) = source.rfind(pat) {
+            let start = at + pat.len();
+            let end = source[start..].find('\n').map(|n| start + n).unwrap_or(source.len());
+            let url = source[start..end].to_string();
+            if !url.contains("*/") {
+                let block = match rng.below(6) {
+                    0 => format!("/*# sourceMappingURL={}*/", url),
+                    1 => format!("/*# sourceMappingURL={} */", url),
+                    2 => format!("/*# sourceMappingURL={}\n*/", url),
+                    3 => format!("/*# sourceMappingURL={}\n * generated by a bundler plugin\n */", url),
+                    4 => format!("/*# sourceMappingURL= {} \t*/", url),
+                    _ => format!("/*#\tsourceMappingURL={} */", url),
+                };
+                source.replace_range(at + 1..end, &block);
+                ref_kind.push_str("+block-form");
+            }
+        }
+    }
     if !for_sweep && rng.chance(1, 10) {
         // the reference in the middle of the file: a leading comment of the next token
         source.push_str("function after(a, b) { return a + b; }\n");
@@ -651,6 +672,16 @@ fn gen_faults(rng: &mut Rng) -> FaultPlan {
                 }
             }
         }
+        p.reads = reads;
+    }
+    if rng.chance(1, 10) {
+        // a persistently failing device: after k good reads every read() fails the same way, however
+        // often the caller re-opens and retries
+        let kinds = [IoKind::WouldBlock, IoKind::TimedOut, IoKind::Other, IoKind::UnexpectedEof, IoKind::InvalidData, IoKind::OutOfMemory];
+        let k = *rng.pick(&kinds);
+        let good = *rng.pick(&[0usize, 0, 0, 1, 2, 5]);
+        let mut reads: Vec<ReadAct> = (0..good).map(|_| ReadAct::Give(p.default_chunk)).collect();
+        reads.extend((0..600).map(|_| ReadAct::Err(k)));
         p.reads = reads;
     }
     if rng.chance(1, 6) {
